@@ -1030,7 +1030,10 @@ def _defined_names(current, include_setitem):
     elif current.type in ('power', 'atom_expr'):
         if current.children[-2] != '**':  # Just if there's no operation
             trailer = current.children[-1]
-            if trailer.children[0] == '.':
+            if trailer.type != 'trailer':
+                # E.g. `await x`, where nothing is defined.
+                pass
+            elif trailer.children[0] == '.':
                 names.append(trailer.children[1])
             elif trailer.children[0] == '[' and include_setitem:
                 for node in current.children[-2::-1]:
